@@ -130,9 +130,9 @@ def _bin(op, vm, ls, l, r, grp="none", inc=(), bool_=False):
 PROBES = {
     # fixes/f6-canjoin-ignoring.patch: a label listed in ignoring() no longer makes a join impossible
     "F6": _bin("and", "ign", ["a"], _sel("m", "eq"), _agg("sum", "none", [], _sel("n"))),
-    # fixes/C12-canjoin-on-forced-labels.patch: on(a) with `a` on neither side is a valid join
+    # fixes/f21-canjoin-on-forced-labels.patch: on(a) with `a` on neither side is a valid join
     "OnForced": _bin("and", "on", ["a"], _agg("sum", "none", [], _sel("m")), _agg("sum", "without", ["a"], _sel("m"))),
-    # fixes/C12-empty-matcher-not-guaranteed.patch: absent(m{a=""}) does not guarantee label a
+    # fixes/f22-empty-matcher-not-guaranteed.patch: absent(m{a=""}) does not guarantee label a
     "EmptyEq": _bin("and", "none", [], {"k": "fn", "f": "absent", "e": _sel("m", "empty"), "dst": "", "src": "", "re": "", "repl": ""},
                 {"k": "fn", "f": "absent", "e": _sel("n"), "dst": "", "src": "", "re": "", "repl": ""}),
 }
